@@ -32,3 +32,16 @@ Example C01_example :
   let t := N WXor (N WOr (L ["x"%byte]) (L ["y"; " "; "z"]%byte)) (L ["w"%byte]) in
   wft2 t /\ parse lpar rpar 2 (render t) false = Ok (denote t, render t, false).
 Proof. exact roundtrip_example. Qed.
+
+(* shared text: what every value of a combination reports (GetSharedLeft / GetSharedRight, ported as get_shared and
+   compared with the implementation on every value of every parsed tree, Spec/Shared.v eff_shared) is the text of all
+   enclosing combinations, outermost first, followed by its own; in particular no enclosing text is lost at any depth *)
+From IGP Require Import Base.Str Model.Tree Spec.Shared.
+Theorem C01_shared_text_of_all_enclosing_combinations : forall sel m a,
+  (a <> nil \/ shared_set (sel m) = true) -> get_shared sel m a = all_shared sel m a.
+Proof. exact get_shared_all_levels. Qed.
+Print Assumptions C01_shared_text_of_all_enclosing_combinations.
+Theorem C01_enclosing_text_reaches_every_value : forall sel m a mo, In mo a -> shared_set (sel (fst mo)) = true ->
+  exists pre post, get_shared sel m a = pre ++ sel (fst mo) ++ post.
+Proof. exact enclosing_text_reaches_every_value. Qed.
+Print Assumptions C01_enclosing_text_reaches_every_value.
